@@ -504,6 +504,15 @@ def mutants(decls, rng):
             nd = d.copy()
             nd.lines[j] = nd.lines[j].replace("WITH %s" % d.info["task"], "WITH no_such_task")
             out.append(("P0011", "program associated with an undeclared task", with_decl(i, nd)))
+            # ... while a resource of ANOTHER configuration declares a task of that name (in the same or in other letter case): it
+            # does not count there, wherever that configuration stands
+            tn = rng.choice(["no_such_task", "NO_SUCH_TASK", "No_Such_Task"])
+            helper = [Decl("program", "HelperProg_t", ["PROGRAM HelperProg_t", "VAR", "  hq : INT;", "END_VAR", "  hq := 3;", "END_PROGRAM"]),
+                      Decl("configuration", "HelperCfg_t",
+                           ["CONFIGURATION HelperCfg_t", "  RESOURCE HelperRes_t ON PLC", "    TASK %s(INTERVAL := T#50ms, PRIORITY := 2);" % tn,
+                            "    PROGRAM helper_inst WITH %s : HelperProg_t;" % tn, "  END_RESOURCE", "END_CONFIGURATION"],
+                           {"task": tn, "program": "HelperProg_t", "global": None})]
+            out.append(("P0011", "program associated with a task that only another configuration declares", with_decl(i, nd) + helper))
             if d.info.get("global") and d.info["global"][1]:
                 # the program declares the external of a CONSTANT global without CONSTANT
                 gname = d.info["global"][0]
